@@ -189,6 +189,51 @@ def writer_campaign(tier: str, seed: int, *, sims=None, n_beh=None, hist_len=Non
     return cases, {"sim": sim_stats, "judge": jstats}
 
 
+def empty_sequence_cases(integ: str, judge=True):
+    """The empty statement sequence through every entry point of one integration: the bytes written must be a valid stream that denotes nothing
+    and parse back to nothing."""
+    variants = []
+    for sclass, lt in (("triple", 1), ("quad", 2), ("graph", 2)):
+        for delimited in (True, False):
+            for as_sink in (True, False):
+                if sclass == "graph" and not as_sink and integ == "generic":
+                    pass
+                variants.append(dict(entry="stream_frames", sclass=sclass, ltype=lt, delimited=delimited, as_sink=as_sink))
+        if sclass != "graph":
+            for guess in (False, True):
+                variants.append(dict(entry="flat_to_file", sclass=sclass, ltype=lt, guess=guess))
+                variants.append(dict(entry="grouped_to_file", sclass=sclass, ltype=(3 if sclass == "triple" else 4), guess=guess))
+            variants.append(dict(entry=("sink_serialize" if integ == "generic" else "graph_serialize"), sclass=sclass, ltype=lt, guess=True))
+    cases, traces = [], []
+    for v in variants:
+        cfg = impl.default_cfg(integ=integ, gen=False, star=False, dataset=(v["sclass"] != "triple"), **v)
+        case = Case({"universe": "empty-sequence", "integ": integ, "entry": v["entry"], "sclass": v["sclass"], "guess": bool(v.get("guess")),
+                     "delimited": v.get("delimited", True), "as_sink": v.get("as_sink", True)}, [])
+        case.delimited = v.get("delimited", True)
+        case.replay = {"cfg": cfg, "statements": []}
+        try:
+            case.data = impl.serialize(cfg, [])
+        except Exception as ex:  # noqa: BLE001
+            case.exc = f"{type(ex).__name__}: {ex}"
+            cases.append(case)
+            continue
+        try:
+            case.frames = wire.dec_stream(case.data, delimited=case.delimited) if case.data else []
+        except wire.WireError as ex:
+            case.frames = None
+            case.verdict = {"verdict": f"W-wire-undecodable:{ex}", "at": 0, "n": 0, "aud": {}}
+        if case.frames is not None:
+            traces.append({"id": len(cases), "rows": terms.jrows_of_frames(case.frames), "mode": "seq", "exp": []})
+        case.back["flat"] = _safe_parse(integ, case.data, "flat")
+        cases.append(case)
+    if judge and traces:
+        verdicts = tlc.judge(traces)
+        verdicts.pop("__stats__")
+        for i, vd in verdicts.items():
+            cases[i].verdict = vd
+    return cases
+
+
 def repo_test_traffic(tier: str, max_rows: int):
     """Run the repository's own test suite on a scratch copy of the working tree with the recorder plugin and
     return Cases for every stream pyjelly's serializers wrote (CCF's lesson: the tests drive traffic, their assertions are weak)."""
